@@ -10,7 +10,7 @@ Lemma obj_ind5 (Q : obj -> Prop) :
   (forall n, Q (OName n)) -> (forall s h, Q (OStr s h)) ->
   (forall l, Forall Q l -> Q (OArr l)) ->
   (forall d, Forall (fun kv => Q (snd kv)) d -> Q (ODict d)) ->
-  (forall d c, Q (OStream d c)) ->
+  (forall d c, Forall (fun kv => Q (snd kv)) d -> Q (OStream d c)) ->
   (forall i g, Q (ORef i g)) ->
   forall o, Q o.
 Proof.
@@ -24,7 +24,7 @@ Proof.
   - apply H6.
   - apply HA. induction l as [|x l IHl]; constructor; [apply IH | exact IHl].
   - apply HD. induction d as [|[k v] d IHd]; constructor; [apply IH | exact IHd].
-  - apply HS.
+  - apply HS. induction d as [|[k v] d IHd]; constructor; [apply IH | exact IHd].
   - apply HR.
 Qed.
 
@@ -101,8 +101,9 @@ Definition enc_body (P : prims) (st : estate) (id : oid) (o : obj) (ivs : list b
     Ok (OStr (fst r) h, snd r)
   | OStream d c =>
     let f := stream_cf st o in
-    rlet r := cf_encrypt P f (cf_compute_key P f (es_key st) id) c ivs in
-    Ok (set_content d (fst r), snd r)
+    rlet rd := enc_dict P st id d ivs in
+    rlet r := cf_encrypt P f (cf_compute_key P f (es_key st) id) c (snd rd) in
+    Ok (set_content (fst rd) (fst r), snd r)
   | _ => Ok (o, ivs)
   end.
 
@@ -118,6 +119,10 @@ Proof.
     f_equal. revert ivs. induction d as [|[k x] d IH]; intro ivs; [reflexivity|].
     cbn [enc_dict]. destruct (encrypt_object P st id x ivs) as [[x' ivs1]| |]; cbn [rbind fst snd]; try reflexivity.
     rewrite IH. reflexivity.
+  - cbn [encrypt_object enc_body]. destruct (skip_object st (OStream d c)); [reflexivity|].
+    f_equal. revert ivs. induction d as [|[k x] d IH]; intro ivs; [reflexivity|].
+    cbn [enc_dict]. destruct (encrypt_object P st id x ivs) as [[x' ivs1]| |]; cbn [rbind fst snd]; try reflexivity.
+    rewrite IH. reflexivity.
 Qed.
 
 Definition dec_body (P : prims) (st : estate) (id : oid) (o : obj) : res obj :=
@@ -129,7 +134,8 @@ Definition dec_body (P : prims) (st : estate) (id : oid) (o : obj) : res obj :=
     rlet p := cf_decrypt P f (cf_compute_key P f (es_key st) id) s in Ok (OStr p h)
   | OStream d c =>
     let f := stream_cf st o in
-    rlet p := cf_decrypt P f (cf_compute_key P f (es_key st) id) c in Ok (set_content d p)
+    rlet d' := dec_dict P st id d in
+    rlet p := cf_decrypt P f (cf_compute_key P f (es_key st) id) c in Ok (set_content d' p)
   | _ => Ok o
   end.
 
@@ -145,6 +151,10 @@ Proof.
     f_equal. induction d as [|[k x] d IH]; [reflexivity|].
     cbn [dec_dict]. destruct (decrypt_object P st id x) as [x'| |]; cbn [rbind]; try reflexivity.
     rewrite IH. reflexivity.
+  - cbn [decrypt_object dec_body]. destruct (skip_object st (OStream d c)); [reflexivity|].
+    f_equal. induction d as [|[k x] d IH]; [reflexivity|].
+    cbn [dec_dict]. destruct (decrypt_object P st id x) as [x'| |]; cbn [rbind]; try reflexivity.
+    rewrite IH. reflexivity.
 Qed.
 
 (* ---------- what a round trip yields: the object with Stream::set_content's Length bookkeeping ---------- *)
@@ -153,7 +163,7 @@ Fixpoint norm_len (st : estate) (o : obj) : obj :=
   else match o with
        | OArr l => OArr (map (norm_len st) l)
        | ODict d => ODict (map (fun kv => (fst kv, norm_len st (snd kv))) d)
-       | OStream d c => set_content d c
+       | OStream d c => set_content (map (fun kv => (fst kv, norm_len st (snd kv))) d) c
        | _ => o
        end.
 
@@ -163,31 +173,41 @@ Fixpoint lengths_ok (st : estate) (o : obj) : Prop :=
   else match o with
        | OArr l => (fix go (l : list obj) : Prop := match l with [] => True | x :: r => lengths_ok st x /\ go r end) l
        | ODict d => (fix go (d : dict) : Prop := match d with [] => True | (_, x) :: r => lengths_ok st x /\ go r end) d
-       | OStream d c => dict_get d K_Length = Some (OInt (Z.of_nat (length c)))
+       | OStream d c =>
+         dict_get d K_Length = Some (OInt (Z.of_nat (length c))) /\
+         (fix go (d : dict) : Prop := match d with [] => True | (_, x) :: r => lengths_ok st x /\ go r end) d
        | _ => True
        end.
 
 Lemma norm_len_id st o : lengths_ok st o -> norm_len st o = o.
 Proof.
-  induction o as [|b|z|r|n|s h|l Hl|d Hd|d c|i g] using obj_ind5; cbn [norm_len lengths_ok]; try reflexivity.
+  induction o as [|b|z|r|n|s h|l Hl|d Hd|d c Hd|i g] using obj_ind5; cbn [norm_len lengths_ok]; try reflexivity.
   - destruct (skip_object st (OArr l)); [reflexivity|]. intro H. f_equal.
     induction Hl as [|x l Hx _ IH]; [reflexivity|]. destruct H as [H1 H2]. cbn [map]. rewrite Hx by exact H1.
     rewrite IH by exact H2. reflexivity.
   - destruct (skip_object st (ODict d)); [reflexivity|]. intro H. f_equal.
     induction Hd as [|[k x] d Hx _ IH]; [reflexivity|]. destruct H as [H1 H2]. cbn [map fst snd] in *.
     rewrite Hx by exact H1. rewrite IH by exact H2. reflexivity.
-  - destruct (skip_object st (OStream d c)); [reflexivity|]. intro H. unfold set_content.
-    rewrite dset_same by exact H. reflexivity.
+  - destruct (skip_object st (OStream d c)); [reflexivity|]. intros [H H']. unfold set_content.
+    assert (G : map (fun kv => (fst kv, norm_len st (snd kv))) d = d).
+    { clear H. induction Hd as [|[k x] d Hx _ IH]; [reflexivity|]. destruct H' as [H1 H2]. cbn [map fst snd] in *.
+      rewrite Hx by exact H1. rewrite IH by exact H2. reflexivity. }
+    rewrite G. rewrite dset_same by exact H. reflexivity.
 Qed.
 
-(* ---------- encryption does not change what the exemption tests look at ---------- *)
-Definition name_eq (x x' : obj) : Prop :=
-  match x, x' with
-  | OName n, OName m => n = m
-  | OName _, _ => False
-  | _, OName _ => False
-  | _, _ => True
+(* ---------- encryption does not change what the exemption and override tests look at ---------- *)
+Definition namef (o : obj) : option bytes := match o with OName n => Some n | _ => None end.
+(* what Stream::filters reads of a Filter value *)
+Definition fview (x : option obj) : option (list bytes) :=
+  match x with Some (OName n) => Some [n] | Some (OArr l) => omap namef l | _ => None end.
+(* what the override reads of a DecodeParms value *)
+Definition dpview (x : option obj) : option (option bytes) :=
+  match x with
+  | Some (ODict dp) => Some (match dict_get dp K_Name with Some (OName n) => Some n | _ => None end)
+  | _ => None
   end.
+
+Definition name_eq (x x' : obj) : Prop := namef x = namef x'.
 
 Lemma rbind_ok {A B} (r : res A) (f : A -> res B) b :
   rbind r f = Ok b -> exists a, r = Ok a /\ f a = Ok b.
@@ -195,18 +215,22 @@ Proof. destruct r as [a| |]; cbn [rbind]; intro H; [exists a; auto | discriminat
 
 Lemma enc_name_eq P st id x ivs x' ivs' : encrypt_object P st id x ivs = Ok (x', ivs') -> name_eq x x'.
 Proof.
-  rewrite encrypt_object_eq. destruct (skip_object st x).
-  - intro H; inversion H; subst. destruct x'; cbn; auto.
+  unfold name_eq. rewrite encrypt_object_eq. destruct (skip_object st x).
+  - intro H; inversion H; subst. reflexivity.
   - destruct x; cbn [enc_body]; intro H;
-      try (inversion H; subst; cbn; auto; fail);
-      apply rbind_ok in H; destruct H as [a [_ H]]; inversion H; subst; cbn; auto.
+      try (inversion H; subst; reflexivity).
+    + apply rbind_ok in H; destruct H as [a [_ H]]; inversion H; subst; reflexivity.
+    + apply rbind_ok in H; destruct H as [a [_ H]]; inversion H; subst; reflexivity.
+    + apply rbind_ok in H; destruct H as [a [_ H]]; inversion H; subst; reflexivity.
+    + apply rbind_ok in H; destruct H as [a [_ H]].
+      apply rbind_ok in H; destruct H as [b [_ H]]. inversion H; subst; reflexivity.
 Qed.
 
 Lemma enc_dict_get P st id d ivs d' ivs' :
   enc_dict P st id d ivs = Ok (d', ivs') ->
   forall k, match dict_get d k, dict_get d' k with
             | None, None => True
-            | Some x, Some x' => name_eq x x'
+            | Some x, Some x' => exists iv iv', encrypt_object P st id x iv = Ok (x', iv')
             | _, _ => False
             end.
 Proof.
@@ -215,38 +239,103 @@ Proof.
   - cbn [enc_dict] in H. apply rbind_ok in H. destruct H as [[x' ivs1] [H1 H]].
     apply rbind_ok in H. destruct H as [[d1 ivs2] [H2 H]]. inversion H; subst. cbn [fst snd dict_get].
     destruct (bytes_eqb k0 k).
-    + eapply enc_name_eq; exact H1.
+    + exists ivs, ivs1. exact H1.
     + eapply IH; exact H2.
 Qed.
 
-Lemma enc_dict_type P st id d ivs d' ivs' :
-  enc_dict P st id d ivs = Ok (d', ivs') -> get_type d' = get_type d.
+Lemma enc_list_names P st id l ivs l' ivs' :
+  enc_list P st id l ivs = Ok (l', ivs') -> omap namef l' = omap namef l.
 Proof.
-  intro H. pose proof (enc_dict_get _ _ _ _ _ _ _ H) as G.
-  unfold get_type, dict_has.
-  pose proof (G K_Type) as GT. pose proof (G K_Linearized) as GL.
-  destruct (dict_get d K_Type) as [x|], (dict_get d' K_Type) as [x'|]; try contradiction.
-  - destruct x, x'; cbn in GT; try contradiction; subst; try reflexivity;
-      destruct (dict_get d K_Linearized), (dict_get d' K_Linearized); try contradiction; reflexivity.
-  - destruct (dict_get d K_Linearized), (dict_get d' K_Linearized); try contradiction; reflexivity.
+  revert ivs l' ivs'. induction l as [|x l IH]; intros ivs l' ivs' H.
+  - inversion H; subst. reflexivity.
+  - cbn [enc_list] in H. apply rbind_ok in H. destruct H as [[x' ivs1] [H1 H]].
+    apply rbind_ok in H. destruct H as [[l1 ivs2] [H2 H]]. inversion H; subst. cbn [fst snd omap].
+    rewrite <- (enc_name_eq _ _ _ _ _ _ _ H1). rewrite (IH _ _ _ H2). reflexivity.
 Qed.
 
-Lemma key_ne_len k : k <> K_Length -> K_Length <> k.
-Proof. intros H E; apply H; symmetry; exact E. Qed.
-
-Lemma skip_set_content st d c v c' :
-  skip_object st (OStream (dict_set d K_Length v) c') = skip_object st (OStream d c).
+Lemma enc_views P st id x ivs x' ivs' :
+  encrypt_object P st id x ivs = Ok (x', ivs') ->
+  fview (Some x') = fview (Some x) /\ dpview (Some x') = dpview (Some x).
 Proof.
-  unfold skip_object, is_xref_stream, type_name, has_type, get_type, dict_has.
-  rewrite !dget_set_other by (cbv; discriminate). reflexivity.
+  rewrite encrypt_object_eq. destruct (skip_object st x).
+  - intro H; inversion H; subst. split; reflexivity.
+  - destruct x; cbn [enc_body]; intro H; try (inversion H; subst; split; reflexivity).
+    + apply rbind_ok in H; destruct H as [a [_ H]]; inversion H; subst; split; reflexivity.
+    + apply rbind_ok in H; destruct H as [[l' iv1] [H1 H]]; inversion H; subst. cbn [fst fview dpview].
+      split; [apply (enc_list_names _ _ _ _ _ _ _ H1) | reflexivity].
+    + apply rbind_ok in H; destruct H as [[d' iv1] [H1 H]]; inversion H; subst. cbn [fst fview dpview].
+      split; [reflexivity|]. f_equal.
+      pose proof (enc_dict_get _ _ _ _ _ _ _ H1 K_Name) as G.
+      destruct (dict_get d K_Name) as [y|], (dict_get d' K_Name) as [y'|]; try contradiction; [|reflexivity].
+      destruct G as [iv [iv' G]]. apply enc_name_eq in G. unfold name_eq in G.
+      destruct y, y'; cbn [namef] in G; try discriminate; try reflexivity. inversion G; reflexivity.
+    + apply rbind_ok in H; destruct H as [a [_ H]].
+      apply rbind_ok in H; destruct H as [b [_ H]]. inversion H; subst; split; reflexivity.
 Qed.
 
-Lemma stream_cf_set_content st d c v c' :
-  stream_cf st (OStream (dict_set d K_Length v) c') = stream_cf st (OStream d c).
+Lemma enc_dict_views P st id d ivs d' ivs' :
+  enc_dict P st id d ivs = Ok (d', ivs') ->
+  forall k, fview (dict_get d' k) = fview (dict_get d k) /\ dpview (dict_get d' k) = dpview (dict_get d k) /\
+            option_map namef (dict_get d' k) = option_map namef (dict_get d k).
 Proof.
-  unfold stream_cf, override_filter, stream_filters.
-  rewrite !dget_set_other by (cbv; discriminate). reflexivity.
+  intros H k. pose proof (enc_dict_get _ _ _ _ _ _ _ H k) as G.
+  destruct (dict_get d k) as [y|], (dict_get d' k) as [y'|]; try contradiction; [|repeat split; reflexivity].
+  destruct G as [iv [iv' G]]. destruct (enc_views _ _ _ _ _ _ _ G) as [V1 V2].
+  apply enc_name_eq in G. unfold name_eq in G. cbn [option_map]. rewrite G. repeat split; assumption.
 Qed.
+
+Lemma has_type_view d d' t :
+  option_map namef (dict_get d' K_Type) = option_map namef (dict_get d K_Type) -> has_type d' t = has_type d t.
+Proof.
+  unfold has_type. intro H.
+  destruct (dict_get d K_Type) as [y|], (dict_get d' K_Type) as [y'|]; cbn [option_map] in H; try discriminate; [|reflexivity].
+  inversion H as [H1]. destruct y, y'; cbn [namef] in H1; try discriminate; try reflexivity. inversion H1; reflexivity.
+Qed.
+
+Lemma skip_stream_view st d c d' c' :
+  option_map namef (dict_get d' K_Type) = option_map namef (dict_get d K_Type) ->
+  skip_object st (OStream d' c') = skip_object st (OStream d c).
+Proof.
+  intro H. unfold skip_object, is_xref_stream, is_metadata_stream.
+  rewrite !(has_type_view d d' _ H). reflexivity.
+Qed.
+
+Lemma stream_cf_view st d c d' c' :
+  fview (dict_get d' K_Filter) = fview (dict_get d K_Filter) ->
+  dpview (dict_get d' K_DecodeParms) = dpview (dict_get d K_DecodeParms) ->
+  stream_cf st (OStream d' c') = stream_cf st (OStream d c).
+Proof.
+  intros HF HD. unfold stream_cf, override_filter.
+  change (stream_filters d') with (fview (dict_get d' K_Filter)).
+  change (stream_filters d) with (fview (dict_get d K_Filter)). rewrite HF.
+  destruct (fview (dict_get d K_Filter)) as [fs|]; [|reflexivity].
+  destruct (existsb (bytes_eqb N_Crypt) fs); [|reflexivity].
+  unfold dpview in HD.
+  destruct (dict_get d K_DecodeParms) as [y|], (dict_get d' K_DecodeParms) as [y'|].
+  - destruct y, y'; try discriminate; try reflexivity. inversion HD as [H1].
+    destruct (dict_get d0 K_Name) as [z|], (dict_get d1 K_Name) as [z'|]; try reflexivity.
+    + destruct z, z'; try discriminate; try reflexivity. inversion H1; reflexivity.
+    + destruct z; try discriminate; reflexivity.
+    + destruct z'; try discriminate; reflexivity.
+  - destruct y; try discriminate; reflexivity.
+  - destruct y'; try discriminate; reflexivity.
+  - reflexivity.
+Qed.
+
+Lemma dec_dict_set_int P st id d k z r :
+  dec_dict P st id d = Ok r -> dec_dict P st id (dict_set d k (OInt z)) = Ok (dict_set r k (OInt z)).
+Proof.
+  revert r. induction d as [|[k0 x] d IH]; intros r H; cbn [dict_set dec_dict] in *.
+  - inversion H; subst. rewrite decrypt_object_eq. reflexivity.
+  - apply rbind_ok in H. destruct H as [x' [Hx H]]. apply rbind_ok in H. destruct H as [r1 [Hr H]].
+    inversion H; subst. destruct (bytes_eqb k0 k) eqn:E; cbn [dec_dict dict_set].
+    + rewrite (decrypt_object_eq P st id (OInt z)).
+      cbn [skip_object is_xref_stream is_metadata_stream orb andb dec_body rbind].
+      rewrite Hr. cbn [rbind]. rewrite E. reflexivity.
+    + rewrite Hx. cbn [rbind]. rewrite (IH _ Hr). cbn [rbind]. rewrite E. reflexivity.
+Qed.
+
+Definition norm_dict (st : estate) (d : dict) : dict := map (fun kv => (fst kv, norm_len st (snd kv))) d.
 
 (* ---------- object_rt ---------- *)
 Theorem object_rt P st id :
@@ -256,12 +345,17 @@ Theorem object_rt P st id :
     decrypt_object P st id o' = Ok (norm_len st o).
 Proof.
   intro HP.
-  induction o as [|b|z|r|n|s h|l Hl|d Hd|d c|i g] using obj_ind5; intros ivs o' ivs' H;
-    rewrite encrypt_object_eq in H; rewrite decrypt_object_eq; cbn [norm_len];
-    match goal with
-    | |- context [skip_object st ?x] => idtac
-    | _ => idtac
-    end.
+  assert (DictRT : forall d, Forall (fun kv => forall ivs o' ivs', encrypt_object P st id (snd kv) ivs = Ok (o', ivs') ->
+                                                 decrypt_object P st id o' = Ok (norm_len st (snd kv))) d ->
+                   forall ivs d' ivs1, enc_dict P st id d ivs = Ok (d', ivs1) -> dec_dict P st id d' = Ok (norm_dict st d)).
+  { intros d Hd. induction Hd as [|[k x] d Hx _ IH]; intros ivs d' ivs1 H1.
+    - inversion H1; subst. reflexivity.
+    - cbn [enc_dict] in H1. apply rbind_ok in H1. destruct H1 as [[x' ivs2] [Hx1 H1]].
+      apply rbind_ok in H1. destruct H1 as [[d1 ivs3] [Hd1 H1]]. inversion H1; subst. cbn [fst snd] in *.
+      cbn [dec_dict norm_dict map fst snd]. rewrite (Hx _ _ _ Hx1). cbn [rbind].
+      fold (norm_dict st d). rewrite (IH _ _ _ Hd1). reflexivity. }
+  induction o as [|b|z|r|n|s h|l Hl|d Hd|d c Hd|i g] using obj_ind5; intros ivs o' ivs' H;
+    rewrite encrypt_object_eq in H; rewrite decrypt_object_eq; cbn [norm_len].
   all: try (destruct (skip_object st _) eqn:Es in H;
             [ inversion H; subst; rewrite Es; reflexivity | ]).
   all: try (cbn [enc_body] in H; inversion H; subst; rewrite Es; reflexivity).
@@ -282,21 +376,25 @@ Proof.
     rewrite Es'. cbn [dec_body]. rewrite Es. rewrite G. reflexivity.
   - (* dictionary *)
     cbn [enc_body] in H. apply rbind_ok in H. destruct H as [[d' ivs1] [H1 H]].
-    assert (Es' : skip_object st (ODict d') = false).
-    { rewrite <- Es. unfold skip_object, is_xref_stream, type_name. rewrite (enc_dict_type _ _ _ _ _ _ _ H1). reflexivity. }
-    assert (G : dec_dict P st id d' = Ok (map (fun kv => (fst kv, norm_len st (snd kv))) d)).
-    { clear Es Es' H. revert ivs d' ivs1 H1. induction Hd as [|[k x] d Hx _ IH]; intros ivs d' ivs1 H1.
-      - inversion H1; subst. reflexivity.
-      - cbn [enc_dict] in H1. apply rbind_ok in H1. destruct H1 as [[x' ivs2] [Hx1 H1]].
-        apply rbind_ok in H1. destruct H1 as [[d1 ivs3] [Hd1 H1]]. inversion H1; subst. cbn [fst snd] in *.
-        cbn [dec_dict map fst snd]. rewrite (Hx _ _ _ Hx1). cbn [rbind]. rewrite (IH _ _ _ Hd1). reflexivity. }
-    inversion H; subst. cbn [fst snd].
+    pose proof (DictRT d Hd _ _ _ H1) as G.
+    inversion H; subst. cbn [fst snd]. assert (Es' : skip_object st (ODict d') = false) by reflexivity.
     rewrite Es'. cbn [dec_body]. rewrite Es. rewrite G. reflexivity.
   - (* stream *)
-    cbn [enc_body] in H. apply rbind_ok in H. destruct H as [[ct ivs1] [H1 H]]. inversion H; subst.
-    cbn [fst snd]. unfold set_content.
-    rewrite (skip_set_content st d c), Es. cbn [dec_body].
-    rewrite (stream_cf_set_content st d c).
+    cbn [enc_body] in H. apply rbind_ok in H. destruct H as [[d' ivs1] [Hd1 H]].
+    apply rbind_ok in H. destruct H as [[ct ivs2] [H1 H]]. cbn [fst snd] in *.
+    pose proof (DictRT d Hd _ _ _ Hd1) as G.
+    pose proof (enc_dict_views _ _ _ _ _ _ _ Hd1) as V.
+    inversion H; subst. clear H. unfold set_content.
+    set (d2 := dict_set d' K_Length (OInt (Z.of_nat (length ct)))).
+    assert (Vt : option_map namef (dict_get d2 K_Type) = option_map namef (dict_get d K_Type)).
+    { subst d2. rewrite dget_set_other by (cbv; discriminate). apply V. }
+    assert (Vf : fview (dict_get d2 K_Filter) = fview (dict_get d K_Filter)).
+    { subst d2. rewrite dget_set_other by (cbv; discriminate). apply V. }
+    assert (Vd : dpview (dict_get d2 K_DecodeParms) = dpview (dict_get d K_DecodeParms)).
+    { subst d2. rewrite dget_set_other by (cbv; discriminate). apply V. }
+    rewrite (skip_stream_view st d c d2 ct Vt), Es. cbn [dec_body].
+    rewrite (stream_cf_view st d c d2 ct Vf Vd).
+    subst d2. rewrite (dec_dict_set_int _ _ _ _ _ _ _ G). cbn [rbind].
     rewrite (filter_rt _ _ _ _ _ _ _ HP H1). cbn [rbind].
     unfold set_content. rewrite dset_set. reflexivity.
 Qed.
@@ -321,14 +419,16 @@ Lemma decrypt_object_equiv P a b id : st_equiv a b -> forall o, decrypt_object P
 Proof.
   intros HE.
   pose proof HE as [Ek [Ec [Em [Er Ed]]]].
-  induction o as [|bb|z|r|n|s h|l Hl|d Hd|d c|i g] using obj_ind5;
+  induction o as [|bb|z|r|n|s h|l Hl|d Hd|d c Hd|i g] using obj_ind5;
     rewrite !decrypt_object_eq, (skip_object_equiv a b _ HE); destruct (skip_object b _); try reflexivity; cbn [dec_body].
-  - unfold string_filter. rewrite Ek, Ec, Er. reflexivity.
+  - unfold string_filter, get_crypt_filter. rewrite Ek, Ec, Er. reflexivity.
   - assert (G : dec_list P a id l = dec_list P b id l).
     { induction Hl as [|x l Hx _ IH]; [reflexivity|]. cbn [dec_list]. rewrite Hx, IH. reflexivity. }
     rewrite G. reflexivity.
   - assert (G : dec_dict P a id d = dec_dict P b id d).
     { induction Hd as [|[k x] d Hx _ IH]; [reflexivity|]. cbn [dec_dict]. cbn [snd] in Hx. rewrite Hx, IH. reflexivity. }
     rewrite G. reflexivity.
-  - unfold stream_cf, override_filter, stream_filter. rewrite Ek, Ec, Em. reflexivity.
+  - assert (G : dec_dict P a id d = dec_dict P b id d).
+    { induction Hd as [|[k x] d Hx _ IH]; [reflexivity|]. cbn [dec_dict]. cbn [snd] in Hx. rewrite Hx, IH. reflexivity. }
+    rewrite G. unfold stream_cf, override_filter, stream_filter, get_crypt_filter. rewrite Ek, Ec, Em. reflexivity.
 Qed.
